@@ -101,13 +101,16 @@ pub struct LeafOut<T> {
 struct Drive<'a> {
   tree: &'a Tree,
   back: bool,
+  /// call ExactSizeIterator::len() on the leaf iterator (not on adaptor iterators such as enumerate's Zip, whose default
+  /// len() asserts an exact size_hint, which Iterator1D/2D do not provide)
+  ask_len: bool,
 }
 
-fn walk<P: Producer>(t: &Tree, p: P, back: bool, out: &mut Vec<LeafOut<P::Item>>) {
+fn walk<P: Producer>(t: &Tree, p: P, back: bool, ask_len: bool, out: &mut Vec<LeafOut<P::Item>>) {
   match t {
     Tree::Leaf => {
       let it = p.into_iter();
-      let len_reported = it.len();
+      let len_reported = if ask_len { it.len() } else { 0 };
       let items: Vec<P::Item> = if back {
         let mut v: Vec<P::Item> = it.rev().collect();
         v.reverse();
@@ -119,8 +122,8 @@ fn walk<P: Producer>(t: &Tree, p: P, back: bool, out: &mut Vec<LeafOut<P::Item>>
     }
     Tree::Node(k, l, r) => {
       let (a, b) = p.split_at(*k);
-      walk(l, a, back, out);
-      walk(r, b, back, out);
+      walk(l, a, back, ask_len, out);
+      walk(r, b, back, ask_len, out);
     }
   }
 }
@@ -129,26 +132,26 @@ impl<'a, T: Send> ProducerCallback<T> for Drive<'a> {
   type Output = Vec<LeafOut<T>>;
   fn callback<P: Producer<Item = T>>(self, producer: P) -> Self::Output {
     let mut out = vec![];
-    walk(self.tree, producer, self.back, &mut out);
+    walk(self.tree, producer, self.back, self.ask_len, &mut out);
     out
   }
 }
 
 fn drive1d(s: f64, e: f64, n: usize, t: &Tree, back: bool) -> Result<Vec<LeafOut<f64>>, String> {
   let t = t.clone();
-  guarded(move || Steps(s, e, n).into_par_iter().with_producer(Drive { tree: &t, back }))
+  guarded(move || Steps(s, e, n).into_par_iter().with_producer(Drive { tree: &t, back, ask_len: true }))
 }
 fn drive1d_enum(s: f64, e: f64, n: usize, t: &Tree) -> Result<Vec<LeafOut<(usize, f64)>>, String> {
   let t = t.clone();
-  guarded(move || Steps(s, e, n).into_par_iter().enumerate().with_producer(Drive { tree: &t, back: false }))
+  guarded(move || Steps(s, e, n).into_par_iter().enumerate().with_producer(Drive { tree: &t, back: false, ask_len: false }))
 }
 fn drive2d(x: (f64, f64, usize), y: (f64, f64, usize), t: &Tree, back: bool) -> Result<Vec<LeafOut<(f64, f64)>>, String> {
   let t = t.clone();
-  guarded(move || Steps2D(x, y).into_par_iter().with_producer(Drive { tree: &t, back }))
+  guarded(move || Steps2D(x, y).into_par_iter().with_producer(Drive { tree: &t, back, ask_len: true }))
 }
 fn drive2d_enum(x: (f64, f64, usize), y: (f64, f64, usize), t: &Tree) -> Result<Vec<LeafOut<(usize, (f64, f64))>>, String> {
   let t = t.clone();
-  guarded(move || Steps2D(x, y).into_par_iter().enumerate().with_producer(Drive { tree: &t, back: false }))
+  guarded(move || Steps2D(x, y).into_par_iter().enumerate().with_producer(Drive { tree: &t, back: false, ask_len: false }))
 }
 
 fn emit_tree1d(root: usize, s: f64, e: f64, n: usize, t: &Tree, back: bool, with_enum: bool) {
